@@ -567,13 +567,59 @@ def impl_events(b, u, chunks):
     return [trace, collect(allev)]
 
 
+def file_bytes(v, read):
+    """the content of an uploaded file, obtained through EVERY public way of reading it: read() (the default `read`),
+    read(n) in pieces after seek(0), aread(), save() and asave() to a scratch path.  All of them must give the same
+    bytes (the content is what the property speaks about, not one accessor); a reader that disagrees shows in the
+    observation."""
+    import os
+    import tempfile
+    data = read(v)
+    views = {}
+    try:
+        v.seek(0)
+        parts = []
+        while True:
+            piece = v.read(7)
+            if not piece:
+                break
+            parts.append(piece)
+        views["read(7)"] = b"".join(parts)
+        v.seek(0)
+        util.run(v.aseek(0))
+        views["aread"] = util.run(v.aread())
+        v.seek(3)                      # save() must copy the whole file wherever the position is, and put it back
+        for name in ("save", "asave"):
+            fd, path = tempfile.mkstemp(prefix="c01-save-", dir=util.tmpdir())
+            os.close(fd)
+            try:
+                if name == "save":
+                    v.save(path)
+                else:
+                    util.run(v.asave(path))
+                with open(path, "rb") as f:
+                    views[name] = f.read()
+            finally:
+                os.unlink(path)
+            views[name + "-position"] = data[3:] if v.read() == data[3:] else b"position not restored"
+            if views[name + "-position"] == data[3:]:
+                del views[name + "-position"]
+            v.seek(3)
+    except Exception as e:  # noqa
+        views["exception"] = type(e).__name__.encode()
+    bad = sorted(k for k, x in views.items() if x != data)
+    if bad:
+        return b"READERS DISAGREE: " + ", ".join(bad).encode() + b" / read() = " + data
+    return data
+
+
 def show_items(items, read):
     out = ["items"]
     for k, v in items:
         if isinstance(v, str):
             out.append(["text", show_name(k), v])
         else:
-            out.append(["file", show_name(k), v.filename, show_hdrs(v.headers), read(v)])
+            out.append(["file", show_name(k), v.filename, show_hdrs(v.headers), file_bytes(v, read)])
             v.close()
     return out
 
